@@ -259,6 +259,7 @@ class World:
 def run_trace(item):
     init()
     cssutils.ser.prefs.keepEmptyRules = True
+    cssutils.ser.prefs.resolveVariables = False      # (with the default an @variables rule is - as documented - not written at all)
     w = World()
     w.nsuse = bool(item.get("nsuse"))
     tr = {"id": item["id"], "init": w.project(), "steps": []}
